@@ -1,11 +1,29 @@
 (* Properties/C07.v — Search quality: exact on small collections, high recall on large ones. *)
-From Verif Require Import Base.Prelude Store.Spec Store.Partition Hnsw.Model Hnsw.Inv Hnsw.Search Hnsw.Exact Hnsw.Cover Hnsw.Small Generated.Facts.
+From Verif Require Import Base.Prelude Store.Spec Store.Partition Hnsw.Model Hnsw.Inv Hnsw.Search Hnsw.Exact Hnsw.Cover Hnsw.Small Hnsw.Config Generated.Facts.
 From Coq Require Import Sorted.
 Open Scope N_scope.
 
 Lemma C07_facts_ok :
-  search_beam_is_max_ef_k = Known true /\ level0_uses_mmax0 = Known true /\ links_both_ways = Known true /\ search_skips_deleted = Known true.
+  search_beam_is_max_ef_k = Known true /\ level0_uses_mmax0 = Known true /\ links_both_ways = Known true /\ search_skips_deleted = Known true /\
+  (* the constructor derives the link caps from the M the caller chose (options first, derived values after) *)
+  config_derives_after_options = Known true.
 Proof. repeat split; reflexivity. Qed.
+Definition derive_last_now : bool := match config_derives_after_options with Known b => b | Unrecognised _ => false end.
+Definition cfg_of_raw (r : rawcfg) : cfg :=
+  {| c_m := Z.to_nat (r_m r); c_mmax := Z.to_nat (r_mmax r); c_mmax0 := Z.to_nat (r_mmax0 r); c_ef := Z.to_nat (r_ef r);
+     c_efc := Z.to_nat (r_efc r); c_heur := r_heur r; c_extend := r_extend r; c_keep := r_keep r |}.
+(* the premise "mMax0 = 2M" of the exactness clause is what the constructor gives whenever the caller sets no explicit
+   caps - for every list of options, the default configuration (M = 16) included *)
+Theorem C07_caps_follow_m : forall opts, forallb (fun o => negb (sets_caps o)) opts = true -> (0 <= r_m (new_config derive_last_now opts))%Z ->
+  c_mmax0 (cfg_of_raw (new_config derive_last_now opts)) = (2 * c_m (cfg_of_raw (new_config derive_last_now opts)))%nat /\
+  c_mmax (cfg_of_raw (new_config derive_last_now opts)) = c_m (cfg_of_raw (new_config derive_last_now opts)).
+Proof.
+  intros opts H Hm. destruct (caps_follow_m opts H) as [E1 E2]. unfold cfg_of_raw. cbn [c_m c_mmax c_mmax0].
+  change derive_last_now with true in *. rewrite E1, E2. split; [rewrite Z2Nat.inj_mul by lia; reflexivity|reflexivity].
+Qed.
+Theorem C07_derive_first_refuted :
+  r_m (new_config false [OM 32]) = 32%Z /\ r_mmax0 (new_config false [OM 32]) = 32%Z /\ r_mmax0 (new_config true [OM 32]) = 64%Z.
+Proof. exact derive_first_refuted. Qed.
 
 (* For every state satisfying the invariant, every query, k, config, distance function and iteration
    order: if the level-0 beam reaches every live vertex, Search returns exactly the k nearest items, in exact order,
@@ -68,3 +86,4 @@ Qed.
 
 Print Assumptions C07_exact_partial.
 Print Assumptions C07_exact.
+Print Assumptions C07_caps_follow_m.
